@@ -33,12 +33,14 @@ import (
 type concOp struct {
 	Op string `json:"op"` // add | autoadd | remove | search | search2 | flush | write | autoid | compact | rotate | close
 	ID uint32 `json:"id,omitempty"`
+	Q  int    `json:"q,omitempty"` // search: which query (every goroutine of a storm asks its own)
 }
 
 type concCase struct {
 	Kind  string     `json:"kind"`
 	Progs [][]concOp `json:"progs"`
 	Spin  bool       `json:"spin,omitempty"` // runtime.Gosched between ops
+	Pre   int        `json:"pre,omitempty"`  // search storm: documents added before the race starts
 }
 
 var concKinds = []string{"flat", "hnsw", "ivf", "pq", "ivfpq", "bm25", "meta", "hybrid", "store"}
@@ -55,6 +57,22 @@ func genConc(r *core.Rand, tier string) *concCase {
 	if tier == "thorough" {
 		maxOps = 24
 	}
+	// search storm (kinds whose score is the metric distance): a few hundred documents, 16
+	// goroutines, mostly searches, every search with its own query — answers that leak from one
+	// search into another (shared scratch memory) carry scores that are not the distance
+	storm := false
+	switch c.Kind {
+	case "flat", "hnsw", "ivf", "hybrid":
+		storm = r.Chance(0.4)
+		if c.Kind == "hnsw" {
+			storm = r.Chance(0.7)
+		}
+	}
+	if storm {
+		g = 16
+		c.Pre = r.Range(150, 400)
+		c.Spin = false
+	}
 	next := concIDBase + uint32(r.Intn(1000))*64
 	var ids []uint32
 	// a few ids exist before the race starts (goroutine 0 adds them first)
@@ -67,8 +85,15 @@ func genConc(r *core.Rand, tier string) *concCase {
 	}
 	for gi := 0; gi < g; gi++ {
 		n := r.Range(2, maxOps)
+		if storm {
+			n = r.Range(6, 12)
+		}
 		for i := 0; i < n; i++ {
-			switch r.Pick(6, 1, 5, 5, 2, 1, 1, 1) {
+			w := []int{6, 1, 5, 5, 2, 1, 1, 1}
+			if storm {
+				w = []int{2, 0, 2, 14, 1, 0, 0, 6}
+			}
+			switch r.Pick(w...) {
 			case 0:
 				next++
 				ids = append(ids, next)
@@ -95,7 +120,7 @@ func genConc(r *core.Rand, tier string) *concCase {
 				if r.Chance(0.2) {
 					op = "search2"
 				}
-				c.Progs[gi] = append(c.Progs[gi], concOp{Op: op})
+				c.Progs[gi] = append(c.Progs[gi], concOp{Op: op, Q: r.Intn(1000)})
 			case 4:
 				c.Progs[gi] = append(c.Progs[gi], concOp{Op: "flush"})
 			case 5:
@@ -107,7 +132,7 @@ func genConc(r *core.Rand, tier string) *concCase {
 					c.Progs[gi] = append(c.Progs[gi], concOp{Op: "autoid"})
 				}
 			case 7:
-				c.Progs[gi] = append(c.Progs[gi], concOp{Op: "search"})
+				c.Progs[gi] = append(c.Progs[gi], concOp{Op: "search", Q: r.Intn(1000)})
 			}
 		}
 	}
@@ -119,7 +144,12 @@ func genConc(r *core.Rand, tier string) *concCase {
 }
 
 func concVec(id uint32) []float32 {
-	return []float32{float32(id%7) + 1, float32(id%5) + 1, float32(id%3) + 1, 1}
+	return []float32{float32(id%7) + 1, float32(id%5) + 1, float32(id%3) + 1, float32(id%11) + 1}
+}
+
+// concQuery: the query of search number k of goroutine g (far apart, so that distance profiles differ)
+func concQuery(g, k int) []float32 {
+	return []float32{float32((g+1)*3) + float32(k%4), float32(k%9) - 4, float32((g*7+k)%13) - 6, float32(g%5) + 0.5}
 }
 func concText(id uint32) string { return fmt.Sprintf("common w%d", id%5) }
 func concMeta(id uint32) map[string]interface{} {
@@ -158,12 +188,16 @@ type concTarget struct {
 	autoadd func() (uint32, error)
 	remove  func(id uint32) error
 	search  func(two bool) ([]uint32, error)
-	flush   func() error
-	write   func() error
-	compact func()
-	rotate  func()
-	close   func() error
-	cleanup func()
+	// scored kinds (score = true metric distance: flat, hnsw, ivf, hybrid over flat in vector mode):
+	// the search with its queries and (id, score) pairs; vecOf = the vector added under an id
+	searchScored func(two bool, q []float32) (qs [][]float32, ids []uint32, scores []float32, err error)
+	vecOf        func(id uint32) []float32
+	flush        func() error
+	write        func() error
+	compact      func()
+	rotate       func()
+	close        func() error
+	cleanup      func()
 }
 
 func trainVecs(n int) []comet.VectorNode {
@@ -194,9 +228,9 @@ func hybIDs(res []comet.HybridSearchResult) []uint32 {
 
 const bigK = 1 << 20
 
-func vectorTarget(idx comet.VectorIndex, nprobe int) *concTarget {
+func vectorTarget(idx comet.VectorIndex, nprobe int, scored bool) *concTarget {
 	q := []float32{1, 2, 3, 4}
-	return &concTarget{
+	t := &concTarget{
 		add:    func(id uint32) error { return idx.Add(*comet.NewVectorNodeWithID(id, concVec(id))) },
 		remove: func(id uint32) error { return idx.Remove(*comet.NewVectorNodeWithID(id, nil)) },
 		search: func(two bool) ([]uint32, error) {
@@ -219,6 +253,22 @@ func vectorTarget(idx comet.VectorIndex, nprobe int) *concTarget {
 			return err
 		},
 	}
+	if scored {
+		t.vecOf = concVec
+		t.searchScored = func(two bool, q []float32) ([][]float32, []uint32, []float32, error) {
+			qs := [][]float32{q}
+			if two {
+				qs = append(qs, []float32{4, 3, 2, 1})
+			}
+			res, err := idx.NewSearch().WithK(bigK).WithNProbes(nprobe).WithEfSearch(4096).WithQuery(qs...).Execute()
+			sc := make([]float32, len(res))
+			for i, h := range res {
+				sc[i] = h.GetScore()
+			}
+			return qs, vecIDs(res), sc, err
+		}
+	}
+	return t
 }
 
 func newConcTarget(kind string) (*concTarget, error) {
@@ -228,13 +278,13 @@ func newConcTarget(kind string) (*concTarget, error) {
 		if err != nil {
 			return nil, err
 		}
-		return vectorTarget(idx, 1), nil
+		return vectorTarget(idx, 1, true), nil
 	case "hnsw":
 		idx, err := comet.NewHNSWIndex(4, comet.DistanceKind("l2"), 4, 32, 4096)
 		if err != nil {
 			return nil, err
 		}
-		return vectorTarget(idx, 1), nil
+		return vectorTarget(idx, 1, true), nil
 	case "ivf":
 		idx, err := comet.NewIVFIndex(4, 3, comet.DistanceKind("l2"))
 		if err != nil {
@@ -243,7 +293,7 @@ func newConcTarget(kind string) (*concTarget, error) {
 		if err := idx.Train(trainVecs(40)); err != nil {
 			return nil, err
 		}
-		return vectorTarget(idx, 3), nil
+		return vectorTarget(idx, 3, true), nil
 	case "pq":
 		idx, err := comet.NewPQIndex(4, comet.DistanceKind("l2"), 2, 4)
 		if err != nil {
@@ -252,7 +302,7 @@ func newConcTarget(kind string) (*concTarget, error) {
 		if err := idx.Train(trainVecs(40)); err != nil {
 			return nil, err
 		}
-		return vectorTarget(idx, 1), nil
+		return vectorTarget(idx, 1, false), nil
 	case "ivfpq":
 		idx, err := comet.NewIVFPQIndex(4, comet.DistanceKind("l2"), 3, 2, 4)
 		if err != nil {
@@ -261,7 +311,7 @@ func newConcTarget(kind string) (*concTarget, error) {
 		if err := idx.Train(trainVecs(40)); err != nil {
 			return nil, err
 		}
-		return vectorTarget(idx, 3), nil
+		return vectorTarget(idx, 3, false), nil
 	case "bm25":
 		idx := comet.NewBM25SearchIndex()
 		return &concTarget{
@@ -311,11 +361,33 @@ func newConcTarget(kind string) (*concTarget, error) {
 		}
 		idx := comet.NewHybridSearchIndex(v, comet.NewBM25SearchIndex(), comet.NewRoaringMetadataIndex())
 		var n atomic.Uint32
+		var autoVec sync.Map // auto-assigned id → the vector added under it
 		return &concTarget{
 			add: func(id uint32) error { return idx.AddWithID(id, concVec(id), concText(id), concMeta(id)) },
 			autoadd: func() (uint32, error) {
 				k := n.Add(1)
-				return idx.Add(concVec(k), concText(k), concMeta(k))
+				id, err := idx.Add(concVec(k), concText(k), concMeta(k))
+				if err == nil {
+					autoVec.Store(id, concVec(k))
+				}
+				return id, err
+			},
+			vecOf: func(id uint32) []float32 {
+				if v, ok := autoVec.Load(id); ok {
+					return v.([]float32)
+				}
+				return concVec(id)
+			},
+			searchScored: func(two bool, q []float32) ([][]float32, []uint32, []float32, error) {
+				if two { // text mode: BM25 scores, not judged here
+					return nil, nil, nil, nil
+				}
+				res, err := idx.NewSearch().WithK(bigK).WithVector(q).Execute()
+				sc := make([]float32, len(res))
+				for i, h := range res {
+					sc[i] = float32(h.Score) // the hybrid score of a vector-only search is float64(distance)
+				}
+				return [][]float32{q}, hybIDs(res), sc, err
 			},
 			remove: idx.Remove,
 			search: func(two bool) ([]uint32, error) {
@@ -433,7 +505,11 @@ func execConc(c *concCase) []string {
 		case "add":
 			inv := clk.Add(1)
 			out := guard(func() string { return concErr(t.add(op.ID)) })
-			logf("op add %d %d %d %d => %s", g, op.ID, inv, clk.Add(1), out)
+			if t.vecOf != nil {
+				logf("op add %d %d %d %d %s => %s", g, op.ID, inv, clk.Add(1), core.VecHex(t.vecOf(op.ID)), out)
+			} else {
+				logf("op add %d %d %d %d => %s", g, op.ID, inv, clk.Add(1), out)
+			}
 		case "autoadd":
 			if t.autoadd == nil {
 				return
@@ -449,7 +525,11 @@ func execConc(c *concCase) []string {
 			if out == "ok" {
 				logf("op autoid %d %d => -", g, id)
 			}
-			logf("op add %d %d %d %d => %s", g, id, inv, resp, out)
+			if t.vecOf != nil && out == "ok" {
+				logf("op add %d %d %d %d %s => %s", g, id, inv, resp, core.VecHex(t.vecOf(id)), out)
+			} else {
+				logf("op add %d %d %d %d => %s", g, id, inv, resp, out)
+			}
 		case "autoid":
 			var id uint32
 			if op.ID%2 == 0 {
@@ -463,6 +543,37 @@ func execConc(c *concCase) []string {
 			out := guard(func() string { return concErr(t.remove(op.ID)) })
 			logf("op remove %d %d %d %d => %s", g, op.ID, inv, clk.Add(1), out)
 		case "search", "search2":
+			if t.searchScored != nil && !(c.Kind == "hybrid" && op.Op == "search2") {
+				inv := clk.Add(1)
+				var qs [][]float32
+				var ids []uint32
+				var scs []float32
+				out := guard(func() string {
+					q, i, s, err := t.searchScored(op.Op == "search2", concQuery(g, op.Q))
+					qs, ids, scs = q, i, s
+					return concErr(err)
+				})
+				resp := clk.Add(1)
+				qh := make([]string, len(qs))
+				for i, q := range qs {
+					qh[i] = core.VecHex(q)
+				}
+				if out == "ok" {
+					hits := make([]string, len(ids))
+					for i := range ids {
+						hits[i] = fmt.Sprintf("%d:%s", ids[i], core.Hex32(scs[i]))
+					}
+					sort.Strings(hits)
+					hs := "-"
+					if len(hits) > 0 {
+						hs = strings.Join(hits, ",")
+					}
+					logf("op search %d %d %d %s => ok %s", g, inv, resp, strings.Join(qh, ";"), hs)
+				} else {
+					logf("op search %d %d %d %s => %s", g, inv, resp, strings.Join(qh, ";"), out)
+				}
+				return
+			}
 			inv := clk.Add(1)
 			var ids []uint32
 			out := guard(func() string {
@@ -503,6 +614,10 @@ func execConc(c *concCase) []string {
 			out := guard(func() string { return concErr(t.close()) })
 			logf("op close %d %d %d => %s", g, inv, clk.Add(1), out)
 		}
+	}
+	// search storm: bulk documents first
+	for j := 0; j < c.Pre; j++ {
+		runOp(0, concOp{Op: "add", ID: concIDBase + 500000 + uint32(j)})
 	}
 	// the ids that exist before the race (leading adds of goroutine 0) are added first
 	pre := 0
@@ -609,7 +724,7 @@ func concLen(c *concCase) int {
 }
 
 func concDrop(c *concCase, lo, hi int) *concCase {
-	n := &concCase{Kind: c.Kind, Spin: c.Spin, Progs: make([][]concOp, len(c.Progs))}
+	n := &concCase{Kind: c.Kind, Spin: c.Spin, Pre: c.Pre, Progs: make([][]concOp, len(c.Progs))}
 	k := 0
 	for g, p := range c.Progs {
 		for _, op := range p {
